@@ -26,6 +26,7 @@ func shapeClass(c tlx.Case) string {
 
 func main() {
 	run := vr.New("C02", "exploration")
+	defer run.Recover()
 	freepass.MaybeReplay(run)
 	run.Rule("for every definition of schemes/api_latest.tl and every mtproto.tl definition that has a registered Go type: the shape alphabet of C01 (two bases, <=k field deviations, all shared-group presence patterns); expected bytes are produced by a serialiser that interprets the .tl line independently; non-trivial = distinct case with >=1 deviation whose bytes were compared")
 	run.Assume("the i-th non-flags schema parameter corresponds to the i-th struct field (checked separately by C13)",
@@ -108,6 +109,8 @@ var sampled = 0
 
 func checkCase(run *vr.Run, sch *tlx.Schemas, e *tlx.Entry, c tlx.Case) {
 	rep := map[string]any{"ID": c.ID}
+	run.Begin(e.Name(), c.ID, rep)
+	defer run.End()
 	site := func(kind string) string {
 		if c.Devs == 0 {
 			return e.Name() + "|base|" + kind
